@@ -2,7 +2,8 @@
 EXTENDS TM, IOUtils
 
 AllModes == {"Required", "Supports", "Mandatory", "RequiresNew", "NotSupported", "Never"}
-EnvMaxRetry == atoi(IOEnv.MAXRETRY)
+EnvMaxRetryC == atoi(IOEnv.MAXRETRYC)
+EnvMaxRetryR == atoi(IOEnv.MAXRETRYR)
 EnvMaxKids  == atoi(IOEnv.MAXKIDS)
 EnvMaxDepth == atoi(IOEnv.MAXDEPTH)
 
@@ -11,7 +12,7 @@ View == <<stack, tclog, nxid, cancelled, decided, budget>>
 ScenFile == IOEnv.SCEN_FILE
 Dump ==
   Finished =>
-    LET r == Serialize(<<[steps |-> env, maxretry |-> budget]>>, ScenFile,
+    LET r == Serialize(<<[steps |-> env, retryc |-> budget.commit, retryr |-> budget.rollback]>>, ScenFile,
                        [format |-> "NDJSON", charset |-> "UTF-8",
                         openOptions |-> <<"WRITE", "CREATE", "APPEND">>])
     IN r = r
